@@ -213,6 +213,14 @@ theorem exclusive_lock_where_records_are_exposed :
 theorem helpers_never_touch_the_mutex :
     ∀ m ∈ Generated.aggCalledWithLock, (m, 0, false) ∈ Generated.aggLockRegions := by decide
 
+/-- every operation reads the clock INSIDE its critical section: the time an operation acts on (deadlines it sets,
+    "is it due", "how long until the next deadline") is the time of its atomic step, not a reading taken before it
+    waited for the lock - an answer computed from state after somebody else's step and a clock reading from before
+    it is one no sequential execution can give. (The harness's clock is frozen while operations run, so no input
+    can exhibit a reading taken too early.) -/
+theorem clock_read_inside_critical_section :
+    Generated.aggClockReads.isEmpty = false ∧ ∀ r ∈ Generated.aggClockReads, r.2 = true := by decide
+
 /-- one critical section per operation: no method acquires the lock more than once, so an operation
     is ONE atomic step (per record for ingestion) -/
 theorem one_critical_section_per_operation : ∀ m ∈ Generated.aggLockRegions, m.2.1 ≤ 1 := by decide
